@@ -204,3 +204,139 @@ Example C01_identity_example :
   map (ident_apply 3 2 2 (fun i => Qcz (i * i - 7)) (fun _ => Qcz 99)) (zrange 14)
   = map (fun i => Qcz (i * i - 7)) (zrange 12) ++ (Qcz 99 :: Qcz 99 :: nil).
 Proof. vm_compute. reflexivity. Qed.
+
+(** ** "up to single-precision rounding", proved (family [round]): Proofs/RoundingP.v (standard model of
+    binary32 from Flocq), StencilRoundP.v (one output cell accumulated in float, any order, fused or not),
+    KickRoundP.v (one kick of one row), FPRoundP.v (the Fokker-Planck stencil operator).  Real numbers:
+    the axioms are those of the standard library's reals. *)
+From Coq Require Import Reals List.
+From Inovesa Require Import Base.RInst Gen.Gen_CoeffsFl Model.FExpr Proofs.RoundingP Proofs.FExprP
+  Proofs.CoeffsRoundP Proofs.StencilRoundP Proofs.KickRoundP Proofs.FPRoundP.
+
+(** a sum of k terms, each rounded at most once when formed, added pairwise in ANY order and tree shape
+    with every addition rounded at most once (left-to-right loop, vectorised reduction, fused
+    accumulation): error <= ((1+u)^k - 1) Sum|t_i| + (2k-1)(1+u)^k eta *)
+Theorem C01_float_sum_any_order :
+  forall (u eta : R), (0 <= u)%R -> (0 <= eta)%R ->
+  forall (l : list R) (v : R), psum1 u eta l v ->
+    (Rabs (v - Rsum l) <= ((1 + u) ^ length l - 1) * Rasum l + psum_abs u eta (length l))%R.
+Proof. exact psum1_bound. Qed.
+Print Assumptions C01_float_sum_any_order.
+
+(** the C++ loops [value = 0; value += a_j * b_j] in binary32, unfused and fused, are such sums *)
+Theorem C01_cpp_loop_is_float_sum :
+  forall ts : list (R * R),
+    psum_opt (map (fun ab => (fst ab * snd ab)%R) ts) (acc_rn ts 0) /\
+    psum_opt (map (fun ab => (fst ab * snd ab)%R) ts) (acc_fma ts 0).
+Proof. intros ts. exact (conj (loop_rn_psum ts) (loop_fma_psum ts)). Qed.
+Print Assumptions C01_cpp_loop_is_float_sum.
+
+(** one kick of one row, any table indices inside the table, exact weights w summing to one, stored
+    float weights wh, support clear of the border under every stencil shift, signed data *)
+Theorem C01_row_kick_rounding :
+  forall (n it : Z) (idx : Z -> Z) (r : Z -> R),
+    0 < n < 2 ^ 30 -> 0 <= it -> (forall j, 0 <= j < it -> 0 <= idx j < n) ->
+  forall a b : Z, supp (K:=RF) r a b -> 0 <= a /\ a <= b /\ b <= n ->
+    (forall j, 0 <= j < it -> 0 <= a - (idx j - n / 2) /\ b - (idx j - n / 2) <= n) ->
+  forall (w wh out : Z -> R) (k : nat),
+    sumZ (K:=RF) 0 (Z.to_nat it) w = 1%R -> (Z.to_nat it <= k)%nat -> (1 <= k)%nat ->
+    row_computed n it idx wh r out ->
+    (Rabs (sumZ (K:=RF) 0 (Z.to_nat n) out - sumZ (K:=RF) 0 (Z.to_nat n) r) <=
+     sumZ (K:=RF) 0 (Z.to_nat it) (fun j => cw k (w j) (wh j)) * sumZ (K:=RF) 0 (Z.to_nat n) (fun i => Rabs (r i))
+     + INR (Z.to_nat n) * A32 k)%R.
+Proof. exact rowR_rounding. Qed.
+Print Assumptions C01_row_kick_rounding.
+
+(** ... with the table of updateSM: indices of the model, exact weights coeffs it f, stored weights any
+    admissible binary32 evaluation of calcCoefficiants at f = frac (fl (n/2 + offset)) >= 0 *)
+Theorem C01_sm_row_kick_rounding :
+  forall (n it : Z) (o : Qc) (r out : Z -> R) (whs : list R),
+    valid_it it -> 0 < n < 2 ^ 30 -> row_okR n it o r ->
+    (0 <= rnd32 (Qcz (n / 2) + o))%Qc ->
+    computed_weights it (qr (sp_frac (poffs_split n o))) whs ->
+    row_computed n it (fun j => fst (sm_entry n it o j)) (nthR whs) r out ->
+    (Rabs (sumZ (K:=RF) 0 (Z.to_nat n) out - sumZ (K:=RF) 0 (Z.to_nat n) r) <=
+     Crow it * u32 * sumZ (K:=RF) 0 (Z.to_nat n) (fun i => Rabs (r i)) + INR (Z.to_nat n) * A32 (Z.to_nat it))%R.
+Proof. exact sm_row_rounding. Qed.
+Print Assumptions C01_sm_row_kick_rounding.
+
+(** the hypotheses are met by the plain loop, fused or not *)
+Theorem C01_row_loop_is_computed :
+  forall (fused : bool) (n it : Z) (idx : Z -> Z) (wh r : Z -> R),
+    row_computed n it idx wh r (row_loop fused n it idx wh r).
+Proof. exact row_loop_computed. Qed.
+Print Assumptions C01_row_loop_is_computed.
+
+(** Fokker-Planck, any table H of exact weights and any stored weights wh at the same indices *)
+Theorem C01_fp_column_rounding :
+  forall (n ip : Z) (H : Z -> Z * R) (wh r out : Z -> R),
+    1 <= ip -> 0 <= n ->
+    (forall y j, 0 <= y < n -> 0 <= j < ip -> 0 <= fst (H (y * ip + j)) < n) ->
+    col_computed n ip (fun k => fst (H k)) wh r out ->
+    (Rabs (sumZ (K:=RF) 0 (Z.to_nat n) out - sumZ (K:=RF) 0 (Z.to_nat n) (fp_col_out (K:=RF) ip H r)) <=
+     sumZ (K:=RF) 0 (Z.to_nat n) (fun k => Rabs (r k) * colw RF ip (cw_table ip H wh) (fun _ => 1%R) n k)
+     + INR (Z.to_nat n) * A32 (Z.to_nat ip))%R.
+Proof. exact col_rounding_transposed. Qed.
+Print Assumptions C01_fp_column_rounding.
+
+Theorem C01_fp_loop_is_computed :
+  forall (fused : bool) (n ip : Z) (idx : Z -> Z) (wh r : Z -> R),
+    col_computed n ip idx wh r (col_loop fused ip idx wh r).
+Proof. exact col_loop_computed. Qed.
+Print Assumptions C01_fp_loop_is_computed.
+
+(** the 3-point operator of the model: an interior-supported column keeps its sum up to that term *)
+Theorem C01_fp3_rounding :
+  forall (e1 delta : R) (p : Z -> R) (v n le m : Z) (wh r out : Z -> R),
+    2 <= n < 2 ^ 32 -> supp (K:=RF) r 2 (n - 2) -> uniform RF delta p -> delta <> 0%R ->
+    col_computed n 3 (fun k => fst (H3 RF e1 delta p v n le m k)) wh r out ->
+    (Rabs (sumZ (K:=RF) 0 (Z.to_nat n) out - sumZ (K:=RF) 0 (Z.to_nat n) r) <=
+     sumZ (K:=RF) 0 (Z.to_nat n)
+       (fun k => Rabs (r k) * colw RF 3 (cw_table 3 (H3 RF e1 delta p v n le m) wh) (fun _ => 1%R) n k)
+     + INR (Z.to_nat n) * A32 3)%R.
+Proof. exact fp3_rounding. Qed.
+Print Assumptions C01_fp3_rounding.
+
+Theorem C01_fp3_rounding_uniform :
+  forall (e1 delta : R) (p : Z -> R) (v n le m : Z) (wh r out : Z -> R) (C : R),
+    2 <= n < 2 ^ 32 -> supp (K:=RF) r 2 (n - 2) -> uniform RF delta p -> delta <> 0%R ->
+    col_computed n 3 (fun k => fst (H3 RF e1 delta p v n le m k)) wh r out ->
+    (forall k, 0 <= k < n -> (colw RF 3 (cw_table 3 (H3 RF e1 delta p v n le m) wh) (fun _ => 1%R) n k <= C)%R) ->
+    (Rabs (sumZ (K:=RF) 0 (Z.to_nat n) out - sumZ (K:=RF) 0 (Z.to_nat n) r) <=
+     C * sumZ (K:=RF) 0 (Z.to_nat n) (fun k => Rabs (r k)) + INR (Z.to_nat n) * A32 3)%R.
+Proof. exact fp3_rounding_uniform. Qed.
+Print Assumptions C01_fp3_rounding_uniform.
+
+(** rows and columns add up: the per-row / per-column bounds above bound the change of the plain sum over all cells of all
+    bunches ([g i], [h i]: output and input sum of row i) *)
+Theorem C01_rows_add_up :
+  forall (lo : Z) (len : nat) (g h b : Z -> R),
+    (forall i, lo <= i < lo + Z.of_nat len -> (Rabs (g i - h i) <= b i)%R) ->
+    (Rabs (sumZ (K:=RF) lo len g - sumZ (K:=RF) lo len h) <= sumZ (K:=RF) lo len b)%R.
+Proof. exact rows_add_up. Qed.
+Print Assumptions C01_rows_add_up.
+
+(** the same for ANY energy axis (the float axis of the implementation is uniform only up to rounding): the
+    column sum of the exact 3-point table is 1 + e1 (1 - (p(k+1) - p(k-1)) / (2 delta)) with damping, 1 without *)
+Theorem C01_fp3_column_sum_any_axis :
+  forall (e1 delta : R) (p : Z -> R) (v k : Z), delta <> 0%R ->
+    cw3 RF e1 delta p v (fun _ => 1%R) k = (1 + axis_defect e1 delta p v k)%R.
+Proof. exact cw3_general. Qed.
+Print Assumptions C01_fp3_column_sum_any_axis.
+
+Theorem C01_fp3_rounding_any_axis :
+  forall (e1 delta : R) (p : Z -> R) (v n le m : Z) (wh r out : Z -> R),
+    2 <= n < 2 ^ 32 -> supp (K:=RF) r 2 (n - 2) -> delta <> 0%R ->
+    col_computed n 3 (fun k => fst (H3 RF e1 delta p v n le m k)) wh r out ->
+    (Rabs (sumZ (K:=RF) 0 (Z.to_nat n) out - sumZ (K:=RF) 0 (Z.to_nat n) r) <=
+     sumZ (K:=RF) 0 (Z.to_nat n) (fun k => Rabs (r k) *
+        (Rabs (axis_defect e1 delta p v k) +
+         colw RF 3 (cw_table 3 (H3 RF e1 delta p v n le m) wh) (fun _ => 1%R) n k))
+     + INR (Z.to_nat n) * A32 3)%R.
+Proof. exact fp3_rounding_axis. Qed.
+Print Assumptions C01_fp3_rounding_any_axis.
+
+(** the constants of [C01_sm_row_kick_rounding]; A32 k = (2k-1)(1+2^-24)^k 2^-150 *)
+Example C01_rounding_constants :
+  map CrowQ (1 :: 2 :: 3 :: 4 :: nil) = ((1001 # 1000) :: (32 # 10) :: (82 # 10) :: (126 # 10) :: nil)%Q.
+Proof. reflexivity. Qed.
